@@ -39,24 +39,18 @@ namespace sw { namespace universal {
 			v = 0;
 			return;
 		}
-		if (_scale == 0) {
-			v = 1;
-		}
-		else {
-			// gather all the fraction bits
+		{
+			// gather the significant: fbits fraction bits below the hidden bit at position fbits
 			constexpr unsigned fbits = posit<nbits, es>::fbits;
 			using BitBlock = internal::bitblock<fbits+1u>;
 			BitBlock significant = extract_significant<nbits, es, fbits>(p);
-			// the radix point is at fbits, to make an integer out of this
-			// we shift that radix point fbits to the right.
-			// that is equivalent to a scale of 2^fbits
+			// bit i of the significant has weight 2^(scale - fbits + i): keep the bits with a non-negative weight
+			// (truncation toward zero) that fit the integer (wrap-around, as for every out-of-range assignment)
 			v.clear();
-			int msb = (v.nbits < p.fbits + 1) ? v.nbits : p.fbits + 1;
-			for (int i = msb-1; i >= 0; --i) {
-				v.setbit(i, significant[i]);
+			for (int i = 0; i <= static_cast<int>(fbits); ++i) {
+				int position = _scale - static_cast<int>(fbits) + i;
+				if (position >= 0 && position < static_cast<int>(ibits) && significant[static_cast<unsigned>(i)]) v.setbit(static_cast<unsigned>(position));
 			}
-			int shift = _scale - p.fbits;  // if scale > fbits we need to shift left
-			v <<= shift;
 			if (p.isneg()) {
 				v.flip();
 				v += 1;
